@@ -150,4 +150,9 @@ def getAccessCall : List Bytes := [b!"s.setAccessTime(key,sm.Size)"]
 /-- C17: setAccessTime books it under the key handed in -/
 def setAccessTimeShape : List Bytes := [b!"name:=itemName(key.FsName())", b!"item:={accessTime((time.Now().Unix()-s.startedAt)),uint32((size/1024))}", b!"storableItem:={time.Now().Unix(),uint32((size/1024))}", b!"s.itemsChan<-&{op:opAccessTime,name:name,accessedItem:&item,storableAccessedItem:&storableItem}"]
 
+/-- C07 C12 C14: the read side takes metadata AND size from the descriptor storage.Get opened (xattr.FGet / f.Stat,
+    never by path): one inode is one stored response, so a reader sees the old unit or the new unit of a
+    refresh, never headers of one and body of the other (the `View` of the interleaving and crash models) -/
+def getStorageMetadataShape : List Bytes := [b!"defer mets.FromContext(ctx).MarkTime(time.Now())", b!"xattrb,err:=xattr.FGet(f,attrName)", b!"if (err!=nil) {return {},err}", b!"sm,err:=decodeStorageMetadata(xattrb)", b!"if (err!=nil) {return {},err}", b!"fi,err:=f.Stat()", b!"sm.FdSize=fi.Size()", b!"return sm,nil"]
+
 end Spec
